@@ -28,7 +28,9 @@ RULE = ('generated article/book documents: sectioning commands of six levels in 
         '(HTML5 default, HTML5 minimal, XHTML default) x split-level -10..6 (all 17 values on the split-levels stream) x ten wildcard '
         'templates (default, static names first, $id/$title(n)/$num(n)/$name/$ref/$jobname, prefixed brackets) x four single-file templates '
         'x nine bad-chars settings x base-url x toc settings; malformed stream: templates without a fail-safe alternative, bad-chars that '
-        'make labels collide, split levels 7..99, documents printed backwards.  Non-trivial = at least two output files and ten words.')
+        'make labels collide, split levels 7..99, documents printed backwards; labels that equal static names of the template / names issued '
+        'earlier (name-clash), twin sections.  Every case is rendered twice in separate pristine processes and the files compared byte for byte '
+        '(tag rendered-twice=identical counts them).  Non-trivial = at least two output files and ten words.')
 TRUSTED = ['modelled, not verified (hypothesis tmpl_linear of the theorems; checked by this correspondence for the shipped templates): '
            'Jinja2 / simpleTAL evaluate a node template so that the rendering of its children appears once, in order; the layout '
            'templates emit the content followed by the footnotes of the file',
@@ -53,6 +55,23 @@ def streams(rng, tier, boost):
         for split in range(-10, 7):
             cfg = rd.gen_cfg(rng, renderer=rname, split=split, template=tmpl)
             out.append(('split-levels-own', {'doc': doc, 'cfg': cfg}))
+    # the known finding is exercised once it is listed in known_findings.json (until then the stream would fail the check)
+    if any(k.get('id') == NBSP_ID for k in core.load_known(ID)) or os.environ.get('VERIF_C13_NBSP'):
+        out += nbsp_cases()
+    return out
+
+
+NBSP_ID = 'C13-word-limit-reintroduces-blank'
+
+
+def nbsp_cases():
+    """$title(n) on a title with a no-break space while the blank is forbidden: the known finding NBSP_ID"""
+    out = []
+    for rname, tmpl in (('html5', '[$id, $title(2), sect$num]'), ('xhtml', 'index [$title(3)-$num(2)]')):
+        doc = {'cls': 'article', 'items': [['par', [['w', 1]]], ['sec', 'section', 0, [1, 2, 3], None, '~'], ['par', [['w', 2], ['w', 3]]],
+                                          ['sec', 'section', 0, [4, 5], 's2', '~'], ['par', [['w', 4]]]]}
+        cfg = dict(renderer=rname, split=1, filename=tmpl, bad=None, base='', tocdepth=3, tocnonfiles=False, crumbs=False, localtoc=False)
+        out.append(('word-limit-blank', {'doc': doc, 'cfg': cfg}))
     return out
 
 
@@ -153,12 +172,16 @@ def oracle(case, rec):
         return ('C13:duplicate-filename', 'file name issued twice: %s' % dup)
     bad = set(eff['bad'])
     if not (bad & set('0123456789')):
-        literal = set(eff['filename']) | set(eff['ext']) | set(eff['badsub'])
+        # the literal text of the template is the user's own choice (white space in it only separates names)
+        literal = set(ch for ch in eff['filename'] if not ch.isspace()) | set(eff['ext']) | set(eff['badsub'])
         for fn in names:
             stem = fn[:-len(eff['ext'])] if eff['ext'] and fn.endswith(eff['ext']) else fn
             b = (set(stem) & bad) - literal
             if b:
-                return ('C13:forbidden-character', 'file name %r contains the forbidden character(s) %r' % (fn, ''.join(sorted(b))))
+                key = 'C13:forbidden-character'
+                if b == {' '} and re.search(r'\$\{?\w+\}?\(\s*\d+\s*\)', eff['filename']):
+                    key += ':word-limit-blank'       # the words of $x(n) are joined by blanks after the substitution
+                return (key, 'file name %r contains the forbidden character(s) %r' % (fn, ''.join(sorted(b))))
     # (c) files on disk
     ondisk = set(rec['files'])
     if ondisk != set(names):
@@ -265,4 +288,8 @@ def tags(case, io):
         t.append('impl-other')
     if is_single(c['filename']):
         t.append('single-file-template')
+    rec = rd.record(case, render_if_missing=False)
+    if rec is not None and rec.get('status') == 'ok':
+        sec = rec.get('second') or {}
+        t.append('rendered-twice=' + ('identical' if sec.get('status') == 'ok' and sec.get('files') == rec.get('digests') else 'DIFFERENT'))
     return t
